@@ -77,3 +77,26 @@ Example C11_trim_then_take_not_idempotent :
   let once := firstn 3 (UStr.u_trim [97; 98; 32; 99]%N) in
   once = [97; 98; 32]%N /\ firstn 3 (UStr.u_trim once) = [97; 98]%N.
 Proof. vm_compute. auto. Qed.
+
+(* Display -> FromStr of an integer newtype stays on the same value: printing is core's
+   decimal Display, parsing core's decimal parser (Sem/Text), and parse (show z) = z for every
+   z of the type, whatever its width *)
+From NV Require Import Base.IntTy Sem.Text Lemmas.TextLemmas.
+Theorem C11_parse_show_int :
+  forall (t : int_ty) (z : Z), in_ty t z = true -> parse_int t (show_int z) = Some z.
+Proof. exact parse_show_int. Qed.
+Print Assumptions C11_parse_show_int.
+
+Theorem C11_display_from_str_int :
+  forall (lib : fnlib) (d : decl) (tn : string) (t : int_ty) (raw : value) (z : Z),
+    d_family d = FInt tn t -> has_trait TrFromStr (d_traits d) = true ->
+    idempotent_on lib d -> construct lib d raw = OOk (VI z) -> in_ty t z = true ->
+    op_from_str_text lib d (show_int z) = OOk (VI z).
+Proof. exact display_from_str_int. Qed.
+Print Assumptions C11_display_from_str_int.
+
+Example C11_show_int_examples :
+  show_int (-170141183460469231731687303715884105728)%Z =
+    [45; 49; 55; 48; 49; 52; 49; 49; 56; 51; 52; 54; 48; 52; 54; 57; 50; 51; 49; 55; 51; 49; 54; 56; 55; 51; 48; 51; 55; 49; 53; 56; 56; 52; 49; 48; 53; 55; 50; 56]%N
+  /\ show_int 0 = [48]%N /\ show_int 255 = [50; 53; 53]%N.
+Proof. vm_compute. repeat split; reflexivity. Qed.
